@@ -367,7 +367,16 @@ def r14_4(ctx, prog, crate):
               "plain line is printed inside a nested loop", plain[0].line())
 
 
+def r14_5(ctx, prog, crate):
+    """A listed path fed back with --exact selects that case and no other: rests on the Exact arm of Filter::is_match being
+    whole-string equality with the candidate path (a prefix/suffix/substring test would also select other cases whose
+    path extends the listed one), and on the filter being applied to every leaf/argument path (R13.3, shared code)."""
+    from .C13 import filter_is_match_rule
+    filter_is_match_rule(ctx, "R14.5", prog, crate)
+
+
 def run(ctx, prog, crate):
+    r14_5(ctx, prog, crate)
     r14_1(ctx, prog, crate)
     r14_2(ctx, prog, crate)
     r14_3(ctx, prog, crate)
